@@ -14,6 +14,27 @@ def impl_confine(arg):
             parse_in_mode(1, a + bad + c), parse_in_mode(1, a), parse_in_mode(0, a + bad + c)]
 def impl_parse_capture(arg): return parse_in_mode(2, S(arg[0]))
 
+DEFAULT_MONTHS = [['jan', 'January'], ['feb', 'February'], ['mar', 'March'], ['apr', 'April'], ['may', 'May'], ['jun', 'June'],
+                  ['jul', 'July'], ['aug', 'August'], ['sep', 'September'], ['oct', 'October'], ['nov', 'November'], ['dec', 'December']]
+DEFAULT_PF = ['author', 'editor']
+def opts_kwargs(o):
+    """wire options [wanted_opt, keyless, macros, person_fields] -> Parser(**kwargs); an option that has its
+    default value is not passed at all (so the 'not given' code path is the one exercised)"""
+    kw = {}
+    if o[0]:
+        kw['wanted_entries'] = [S(k) for k in o[0][0]]
+    if o[1]:
+        kw['keyless_entries'] = True
+    macros = [[S(k), S(v)] for k, v in o[2]]
+    if macros != DEFAULT_MONTHS:
+        kw['macros'] = dict(macros)
+    pf = [S(x) for x in o[3]]
+    if pf != DEFAULT_PF:
+        kw['person_fields'] = pf
+    return kw
+def impl_parse3_opts(arg): return parse_all_modes(S(arg[1]), opts_kwargs(arg[0]))
+def impl_located(arg): return parse_in_mode(2, S(arg[0]))
+
 FUNCS = {
     1: ('Parser().parse_string(text) in strict / non-strict / capture mode', impl_parse3, ('T', 'S')),
     2: ('list(LowLevelParser(text))', impl_low, ('T', 'I', 'S')),
@@ -24,12 +45,14 @@ FUNCS = {
     7: ('Scanner.skip_to', impl_skip_to, ('T', 'X', 'S')),
     8: ('capture-mode reading of x+bad+y, x+y, x (confinement)', impl_confine, ('T', 'S', 'S', 'S')),
     9: ('capture-mode reading', impl_parse_capture, ('T', 'S')),
+    13: ('Parser(wanted_entries=, keyless_entries=, macros=, person_fields=).parse_string(text) in strict / non-strict / capture mode', impl_parse3_opts, ('T', 'X', 'S')),
+    14: ('capture-mode reading of a text with one malformed construct at a known position', impl_located, ('T', 'X', 'X')),
 }
 
 def canon(fn, r):
-    if fn == 1 or fn == 8:
+    if fn in (1, 8, 13):
         return [canon_parse(x) for x in r]
-    if fn == 9:
+    if fn in (9, 14):
         return canon_parse(r)
     if fn == 2:
         return canon_low(r)
@@ -50,12 +73,17 @@ EXHAUSTIVE = {'quick': 'all strings of length <= 4 over {@ a 1 { } ( ) " , = # %
 TRUSTED_BASE = ['modelled (not verified) code: pybtex/database/input/bibtex.py LowLevelParser and Parser, pybtex/scanner.py Scanner, textutils.normalize_whitespace, BibliographyData.add_entry/add_to_preamble, errors.report_error (three modes), LowLevelParser.get_error_context (only its partial operation), split_name_list and Person through Model/BibtexStr.v and Model/Names.v; regexes are hand-written matchers swept against the live objects',
                 'non-strict mode is observed through the warnings printed to pybtex.io.stderr (replaced by a StringIO)']
 ASSUMPTIONS = ['Python str.isspace / regex \\s = the 29 code points of Base/PyChar.is_space', 'str.lower() = ASCII lower on the characters used as keys / identifiers (non-ASCII cased letters are outside the generated domain)']
-PARTIAL = ['confinement is proved at command level (Props/C10.v: prefix_confinement_partial / suffix_confinement_partial); the character-level statement for arbitrary balanced corrupted text is left to the correspondence run and the oracle',
+PARTIAL = ['the reader options (wanted_entries, keyless_entries, macros, person_fields) are modelled in Model/BibParserOpt.v and tied on every run, but the theorems are proved for the default options only',
+           'confinement is proved at command level (Props/C10.v: prefix_confinement_partial / suffix_confinement_partial); the character-level statement for arbitrary balanced corrupted text is left to the correspondence run and the oracle',
            'errors_located is proved for syntax errors (line = 1 + line breaks consumed, position inside the command); that the position is the "offending construct" in the user\'s sense is not formalised']
 
 def describe(fn, arg):
     if fn in (1, 9):
         return {'text': S(arg[0])}
+    if fn == 13:
+        return {'Parser_kwargs': opts_kwargs(arg[0]), 'text': S(arg[1])}
+    if fn == 14:
+        return {'text': S(arg[0]), 'offending_position': arg[1], 'expected_line': line_at(S(arg[0]), arg[1])}
     if fn == 2:
         return {'mode': MODES.get(arg[0]), 'text': S(arg[1])}
     if fn == 8:
@@ -67,7 +95,7 @@ def describe(fn, arg):
     return {'fn': fn}
 
 def nontrivial(fn, arg, out):
-    if fn == 1:
+    if fn in (1, 13):
         c = out[2]
         return c[0] == 0 and (len(c[1][0]) > 0 or len(c[1][2]) > 0)
     if fn == 8:
@@ -161,8 +189,87 @@ PINNED = [
     '@a{k, A = 1, a = 2, Author = {X}, author = {Y}}',     # duplicates differing in case, upper-case first
 ]
 
+OPTION_SETS = [
+    [[[]], 0, DEFAULT_MONTHS, DEFAULT_PF],                    # wanted_entries=[]
+    [[['*']], 0, DEFAULT_MONTHS, DEFAULT_PF],
+    [[['k1', 'K3', 'k:9', 'k']], 0, DEFAULT_MONTHS, DEFAULT_PF],
+    [[['k2', 'a']], 0, [], DEFAULT_PF],
+    [[], 1, DEFAULT_MONTHS, DEFAULT_PF],                      # keyless_entries=True
+    [[['unnamed-1', 'K2']], 1, DEFAULT_MONTHS, ['Author', 'translator']],
+    [[], 0, [], DEFAULT_PF],                                  # macros={}
+    [[], 0, [['Foo', 'bar'], ['JAN', 'J'], ['foo', 'baz'], ['a', '']], DEFAULT_PF],
+    [[], 0, DEFAULT_MONTHS, []],                              # person_fields=[]
+    [[['K']], 1, [['mm', 'x']], ['title', 'Note']],
+]
+OPTION_TEXTS = [
+    '@string{a = undefinedmacro}', '@preamble{undefinedmacro}', '@string{a = b # "x"} @a{k, t = a # c}', '@preamble{"p" # q}@a{k2, t = q}',
+    '@a{k2, crossref = {k9}, t = und}@b{k9, t = und}@c{k8, t = und}', '@a{k1, crossref = "K5"}@a{k5}@a{K1}', '@a{k, t = und}', '@a{K, author = {A and B}, Title = {t}, translator = {X, Y}}',
+    '@a{t = 1, u = und}', '@a{, t = 1}@b{x = {y}}@c{k}', '@a(k2, note = mm # jan # foo # Foo)', '@a{k, t = {x}', '@a{k, t = und', '@a{k, author = {a, b, c, d}}@a{k3, a = a}@A{K3}',
+]
+
+NLS = ['\n', '\r', '\r\n', '\r', '\n', '\r\r\n', '\n\r']
+NOBREAK_WS = ['\x0b', '\x0c', '\x1c', '\x1d', '\x1e', '\x85', '\u2028', '\u2029', ' ', '\t']
+def located_cases(tier, rng):
+    """texts with exactly one malformed construct whose position is known by construction ('§' marks it),
+    over all three line terminators and mixtures, with whitespace that is NOT a line break mixed in"""
+    templates = [
+        '@a{k,|x|=|§}',              # token required where the value should start
+        '@a{k,|x|§y}',               # '=' required
+        '@a{k,|x|=|{v}|§@b{k2}',     # closing delimiter / ',' required
+        '@a{k,|x|=|§"abc|def',       # unterminated string: the string starts at the quote
+        '@a{k,|x|=|und§|,|y|=|1}',   # undefined macro
+        '@a|§,|{k}',                 # '(' or '{' required
+        '@a{k,|x|=|"a|§}|b"}',       # unbalanced braces (reported after the brace)
+        '@a(|§,x=1)',                # entry key required
+        '@a{k,|x|=|{v}|#|§}',        # value part required after '#'
+        '@a{k,|x|=|{v}|§',           # premature end of file
+    ]
+    n = 40 if tier == 'quick' else 400
+    for t in templates:
+        for i in range(n):
+            def ws():
+                if i < len(NLS):
+                    return NLS[i] * rng.choice([1, 1, 2])
+                return ''.join(rng.choice(NLS + NOBREAK_WS + [' ', ' ']) for _ in range(rng.choice([0, 1, 1, 2, 3])))
+            lines = []
+            for j in range(rng.randint(0, 4)):
+                lines.append(rng.choice(['@ok{k%d, t = {v}}' % j, 'junk text', '', '@string{s%d = "x"}' % j, '@ok{q%d,' % j + rng.choice(NLS) + ' t = {a' + rng.choice(NLS) + 'b}}']) + rng.choice(NLS) * rng.choice([1, 1, 2]))
+            body = ''.join(ws() if c == '|' else c for c in t)
+            if '§}|b' in t:
+                pass
+            text = ''.join(lines) + body
+            pos = text.index('§')
+            text = text.replace('§', '')
+            if t.startswith('@a{k,|x|=|"a|§}'):
+                pos += 1          # the error is raised right after the unbalanced brace has been consumed
+            if t.endswith('§') and t.startswith('@a{k,|x|=|{v}|§'):
+                pos = len(text)   # end of file
+            yield ('located', 14, [text, pos])
+
 def gen(tier, rng):
     yield ('tables', 5, [])
+    for o in OPTION_SETS:
+        for t in PINNED + OPTION_TEXTS:
+            yield ('options_pinned', 13, [o, t])
+        for p in PREFIXES:
+            for n in range(0, 3):
+                for tup in itertools.product(TOK, repeat=n):
+                    yield ('options_exhaustive', 13, [o, p + ''.join(tup)])
+    k = 0
+    for c in corruption_cases('quick', random.Random(7)):
+        k += 1
+        if k % (6 if tier == 'quick' else 2) == 0:
+            o = OPTION_SETS[(k // 2) % len(OPTION_SETS)]
+            yield ('options_corruption', 13, [o, S(norm(c[2][0])) + S(norm(c[2][1])) + S(norm(c[2][2]))])
+    for c in located_cases(tier, rng):
+        yield c
+    # the corruption contexts again with CR / CR LF / mixed line ends (error lines must stay inside the entry)
+    for nl in ['\r', '\r\n', '\n\r']:
+        k = 0
+        for c in corruption_cases('quick', random.Random(11)):
+            k += 1
+            if k % (9 if tier == 'quick' else 3) == 0:
+                yield ('corruption_line_ends', 8, [S(norm(c[2][0])).replace('\n', nl), S(norm(c[2][1])).replace(' ', rng.choice([' ', nl, ' ' + nl])), S(norm(c[2][2])).replace('\n', nl)])
     for t in PINNED:
         yield ('pinned', 1, [t])
         yield ('pinned', 2, [2, t])
@@ -242,7 +349,7 @@ def gen(tier, rng):
 # ---------------------------------------------------------------------------------------
 # the property itself, on the implementation's outputs
 def n_lines(text):
-    return 1 + text.count('\n') + text.count('\r') - text.count('\r\n')
+    return line_at(text, len(text))
 
 def strip_dirty(ents):
     return [e[1:] for e in ents]
@@ -292,9 +399,37 @@ def oracle_modes(text, out):
             return 'a syntax error carries line %d but the text has %d lines' % (e[1], nl)
     return None
 
+def line_at(text, pos):
+    """1 + the number of line breaks before position pos; a line break is LF, CR LF (once) or a lone CR
+    (counted by hand: no str.splitlines, which also breaks at VT, FF, FS..RS, NEL, LS, PS)"""
+    n, i = 1, 0
+    while i < pos:
+        c = text[i]
+        if c == '\n':
+            n += 1
+        elif c == '\r':
+            n += 1
+            if i + 1 < len(text) and text[i + 1] == '\n':
+                i += 1
+        i += 1
+    return n
+
 def oracle(fn, arg, out):
     if fn == 1:
         return oracle_modes(S(arg[0]), out)
+    if fn == 13:
+        return oracle_modes(S(arg[1]), out)
+    if fn == 14:
+        text, pos = S(arg[0]), arg[1]
+        if out[0] != 0:
+            return 'the reader did not finish in capture mode'
+        errs = [e for e in out[1][2] if e[1] != -1]
+        if not errs:
+            return 'no located error reported for a text with a malformed construct'
+        want = line_at(text, pos)
+        if errs[0][1] != want:
+            return 'the error carries line %d, the offending construct is in line %d' % (errs[0][1], want)
+        return None
     if fn == 9:
         if out[0] == 2:
             return 'a non-pybtex exception escaped the reader'
